@@ -1380,7 +1380,7 @@ def _sequence_cases():
 
 
 def plan(tier):
-  n = 4000 if tier == "quick" else 64000
+  n = 4000 if tier == "quick" else 300000
   return [
     Enum("grid-flow", lambda: _grid(tier, "flow"), shards=16),
     Enum("grid-packet-out", lambda: _grid(tier, "packet_out"), shards=16),
